@@ -403,6 +403,9 @@ class Reporter:
         cov = self.coverage
         cov["distinct_nontrivial"] = len(self._distinct)
         cov["known_findings_reproduced"] = sorted(self.known_hits)
+        _orch = sys.modules.get("harness.orch")
+        if _orch is not None and getattr(_orch, "MP_HANG_RETRIES", [0])[0]:
+            cov["multiprocessing_runs_reobserved_after_a_stall"] = _orch.MP_HANG_RETRIES[0]
         EVIDENCE.mkdir(exist_ok=True)
         lines = []
         for key, h in sorted(self.known_hits.items()):
